@@ -1305,7 +1305,7 @@ fn futex_scenarios(out: &mut impl Write) {
                 // every wait of the scenarios carries a long timeout so that a broken wake cannot hang the driver
                 let mut res;
                 loop {
-                    res = errno_of(&futex_wait(&word, 7, FutexFlags::PRIVATE, Some(TimeSpec::new(5, 0))));
+                    res = errno_of(&futex_wait(&word, 7, FutexFlags::PRIVATE, Some(TimeSpec::new(60, 0))));
                     if res != -i64::from(EINTR) {
                         break;
                     }
@@ -1319,9 +1319,9 @@ fn futex_scenarios(out: &mut impl Write) {
             all &= wait_until_parked(t);
         }
         let r = futex_wake(&word, n).map_or(-1, |x| x as i64);
-        // the woken threads need time to come back (up to 3 s on a loaded machine), then a
+        // the woken threads need time to come back (up to 15 s on a loaded machine), then a
         // grace period during which nobody else may return
-        for _ in 0..3000 {
+        for _ in 0..15000 {
             if i64::from(returned.load(Ordering::SeqCst)) >= r {
                 break;
             }
